@@ -510,6 +510,14 @@ def arg_required(tree, errs):
                 if isinstance(s, ast.Assign) and ast.unparse(s.targets[0]) == "self.required":
                     val = it.ev(s.value)
                     break
+                if isinstance(s, (ast.If, ast.AnnAssign)) and any(
+                        isinstance(n, (ast.Assign, ast.AnnAssign, ast.AugAssign, ast.NamedExpr)) and "required" in
+                        [ast.unparse(t) for t in (n.targets if isinstance(n, ast.Assign) else [n.target])] for n in ast.walk(s)):
+                    # `if required is None: required = default is None` (statement form of the conditional expression)
+                    if isinstance(s, ast.AnnAssign) and s.value is None:
+                        continue
+                    it.stmt(s)
+                    continue
             if val is None or val[0] != "const":
                 raise Unt("Argument.__init__: self.required is not assigned from `required`")
             out[(req, dnone)] = bool(val[1])
@@ -521,11 +529,16 @@ def create_required(tree, errs):
     for s in ast.walk(fn):
         if isinstance(s, ast.Assign) and ast.unparse(s.targets[0]) in ("self.kwargs['required']", 'self.kwargs["required"]'):
             out = {}
+            value = s.value
+            if isinstance(value, ast.Name):   # explaining variable: `is_required = …; self.kwargs["required"] = is_required`
+                defs = [n for n in ast.walk(fn) if isinstance(n, ast.Assign) and len(n.targets) == 1 and ast.unparse(n.targets[0]) == value.id]
+                if len(defs) == 1 and defs[0].lineno < s.lineno:
+                    value = defs[0].value
             for opt in (False, True):
                 for dflt in (False, True):
                     it = Interp(errs, None, {"optionaltype": opt, "self.kwargs['default']": dflt}, None)
                     it.env["optionaltype"] = ("atom", "optionaltype")
-                    out[(opt, dflt)] = it.truth(it.ev(s.value))
+                    out[(opt, dflt)] = it.truth(it.ev(value))
             return out
     raise Unt("ArgumentOptions.create: no assignment to self.kwargs['required']")
 
@@ -784,14 +797,19 @@ def arg_lin(tree):
 def from_type(tree):
     fn = find(tree, "Type", "fromType")
     out = []
+    probes = set()   # locals holding the result of typingutils.get_list / get_dict / get_union (whatever their names)
     for s in fn.body:
         if not isinstance(s, ast.If):
-            if isinstance(s, ast.Assign) and "get_list" in ast.unparse(s):
-                out.append("list")
-            elif isinstance(s, ast.Assign) and "get_dict" in ast.unparse(s):
-                out.append("dict")
+            if isinstance(s, ast.Assign) and len(s.targets) == 1 and isinstance(s.targets[0], ast.Name):
+                for fname, tag in (("get_list", "list"), ("get_dict", "dict"), ("get_union", "union")):
+                    if fname in ast.unparse(s.value):
+                        out.append(tag)
+                        probes.add(s.targets[0].id)
+                        break
             continue
         t = ast.unparse(s.test)
+        if t in probes or any(t == f"{p} is not None" for p in probes):
+            continue
         if t == "key is None":
             out.append("none")
         elif t in ("defined", "defined is not None") or "DEFINED" in t:
